@@ -14,6 +14,7 @@ type MEvent struct {
 	Kind    int
 	Motion  bool // detector result for a valid frame
 	WinOpen bool // recording window open at this frame
+	Refuse  bool // storage refuses a start at this frame (disk full, directory missing)
 }
 
 type MConfig struct {
@@ -99,7 +100,7 @@ func RunModel(c MConfig, evs []MEvent) MResult {
 				if e.Motion {
 					lastMotion = written
 				}
-			} else if e.Motion && run >= trig && e.WinOpen && (c.Check == nil || c.Check()) && (c.Start == nil || c.Start()) {
+			} else if e.Motion && run >= trig && e.WinOpen && !e.Refuse && (c.Check == nil || c.Check()) && (c.Start == nil || c.Start()) {
 				first := id - c.PreTrigger
 				if first < lastEnd+1 {
 					first = lastEnd + 1
